@@ -186,6 +186,12 @@ def mask_password_shape():
     if not (len(f.args.defaults) == 1 and isinstance(f.args.defaults[0], ast.Constant) and isinstance(f.args.defaults[0].value, str)):
         raise GenError('default secret is not a string literal')
     default_secret = f.args.defaults[0].value
+    # `secret` must reach the replacement templates as given: no rebinding (secret = secret or ..., secret = str(secret), ...)
+    for n in ast.walk(f):
+        if isinstance(n, ast.Name) and n.id == 'secret' and isinstance(n.ctx, (ast.Store, ast.Del)):
+            raise GenError('`secret` is rebound inside mask_password')
+        if isinstance(n, (ast.BoolOp, ast.IfExp)) and any(isinstance(x, ast.Name) and x.id == 'secret' for x in ast.walk(n)):
+            raise GenError('`secret` is used in a conditional expression (secret or ..., ... if secret else ...)')
     subs = {}
     loop = None
     for st in f.body:
